@@ -53,6 +53,9 @@ def kernel(c, name, cond, start, n):
     return np.array([c.uf(f'K_{name}_{i}', *args, *list(np.atleast_1d(start))) for i in range(n)], dtype=object if c.sym else float)
 
 
+ORDER = []          # global order of kernel applications (all stub blocks)
+
+
 class BlockSampler(Sampler):
     """stub block kernel on top of the real Sampler base class (state handling is the real one)"""
     def __init__(self, c, name, initial_point, **kw):
@@ -62,7 +65,7 @@ class BlockSampler(Sampler):
     def validate_target(self): pass
     def tune(self, skip_len, update_count): pass
     def step(self):
-        self.events.append(('step', self.target, self.current_point))
+        self.events.append(('step', self.target, self.current_point)); ORDER.append(self.bname)
         self.current_point = kernel(self.c, self.bname, self.target.cond, self.current_point, len(self.current_point))
         return 1
 
@@ -82,7 +85,7 @@ class NutsTypedBlock(NUTS):
     def _pre_warmup(self): pass
     def _pre_sample(self): pass
     def step(self):
-        self.events.append(('step', self.target, self.current_point))
+        self.events.append(('step', self.target, self.current_point)); ORDER.append(self.bname)
         self.current_point = kernel(self.c, self.bname, self.target.cond, self.current_point, len(self.current_point))
         return 1
 
@@ -123,7 +126,8 @@ def hybrid_sweep(c, k=2, steps=(1, 2, 1, 3), with_real_mh=False, nuts_block=Fals
             if c.sym: shims.PRESET['normal'].append(z.reshape(-1, 1))
             else: c._numq['normal'].append(z.reshape(-1, 1)); c._patch_random()
         CheckedMH.ghost.clear()
-    J.log.clear()
+    J.log.clear(); del ORDER[:]
+    if c.sym: shims.CLOSE_MODEL[0] = 'tolerance'       # closeness tests in the schedule are modelled as numpy documents them
     nstored = {n: len(G.samples[n]) for n in names}
     G.step(); G._store_samples()
     # reference schedule written from the property statement
@@ -152,7 +156,10 @@ def hybrid_sweep(c, k=2, steps=(1, 2, 1, 3), with_real_mh=False, nuts_block=Fals
             c.eq('real_MH_block_target_conditioned_on_latest_others', np.concatenate([np.atleast_1d(smp.target.cond[m]) for m in sorted(others)]),
                  np.concatenate([np.atleast_1d(others[m]) for m in sorted(others)]))
             latest[n] = G.current_samples[n]
-    c.holds('every_block_visited_once_in_parameter_order', [sorted(set(names) - set(l)) for l in J.log] == [[n] for n in names], note=str([sorted(set(names) - set(l)) for l in J.log]))
+    # (the order is observed on the kernels' applications, not on how often the joint is re-conditioned: re-using a conditional that
+    #  is still the right one is not a violation)
+    want = [n for n in names if isinstance(samplers[n], (BlockSampler, NutsTypedBlock)) for _ in range(nsteps[n])]
+    c.holds('block_kernels_applied_in_parameter_order', ORDER == want, note=f"{ORDER} vs {want}")
     for n in names:
         c.holds(f'stored_sample_of_{n}_appended_once', len(G.samples[n]) == nstored[n] + 1)
         c.eq(f'stored_sample_of_{n}_is_value_after_the_sweep', G.samples[n][-1], G.current_samples[n])
